@@ -409,6 +409,18 @@ def replay_schedule(spec):
                 finite_table(name, result[name], ti)
             trace['n_results'] = len(result.gyro)
             lo, hi = stamps[0], stamps[-1]
+            if not wa:
+                # no-altitude mode: vertical velocity exactly zero, altitude frozen at the initial
+                # one (a 2D correction changes neither), reported vertical sd exactly zero
+                tr = result.trajectory
+                if np.any(np.asarray(tr['VD'].values, dtype=float) != 0.0):
+                    failed.append('2D: a trajectory row has VD != 0 (max |VD| %.3g)' % np.abs(tr['VD'].values).max())
+                if np.any(np.asarray(tr['alt'].values, dtype=float) != float(pva0['alt'])):
+                    failed.append('2D: altitude of a trajectory row differs from the initial altitude (max diff %.3g)' % np.abs(tr['alt'].values - pva0['alt']).max())
+                sd = result.trajectory_sd
+                for c in ('down', 'VD'):
+                    if c in sd.columns and np.any(np.asarray(sd[c].values, dtype=float) != 0.0):
+                        failed.append('2D: reported sd of %s is not exactly zero' % c)
     else:
         n = len(stamps)
         rows = np.tile(pva0.values, (n, 1))
